@@ -306,6 +306,10 @@ type grpcClientConn struct {
 	responseHeader   http.Header
 	responseTrailer  http.Header
 	readTrailers     func(*grpcUnmarshaler, *duplexHTTPCall) http.Header
+	// trailersRead is set once the trailers have been merged into
+	// responseTrailer: a caller may call Receive again after the stream has
+	// ended, and must not find every value once more for each call.
+	trailersRead bool
 }
 
 func (cc *grpcClientConn) Spec() Spec {
@@ -340,10 +344,13 @@ func (cc *grpcClientConn) Receive(msg any) error {
 		return err
 	}
 	// See if the server sent an explicit error in the HTTP or gRPC-Web trailers.
-	mergeHeaders(
-		cc.responseTrailer,
-		cc.readTrailers(&cc.unmarshaler, cc.duplexCall),
-	)
+	if !cc.trailersRead {
+		cc.trailersRead = true
+		mergeHeaders(
+			cc.responseTrailer,
+			cc.readTrailers(&cc.unmarshaler, cc.duplexCall),
+		)
+	}
 	serverErr := grpcErrorFromTrailer(cc.bufferPool, cc.protobuf, cc.responseTrailer)
 	if serverErr != nil && (errors.Is(err, io.EOF) || !errors.Is(serverErr, errTrailersWithoutGRPCStatus)) {
 		// We've either:
